@@ -91,6 +91,47 @@ func throughVerifyAPREQ(c *engine.Ctx) {
 			}
 		}
 	}
+	// (a2) another AP-REQ altogether - freshly minted ticket and authenticator ciphertexts - whose authenticator has the
+	// same client, client time (with microseconds) and target service but differs in what the property's identity of an
+	// authenticator does not include: sequence number, name type
+	for _, et := range []int32{18, 23} {
+		for _, v := range []struct {
+			name string
+			mod  func(c *apworld.Case)
+		}{
+			{"other-sequence-number", func(c *apworld.Case) { c.SeqNum = 2002 }},
+			{"sequence-number-zero", func(c *apworld.Case) { c.SeqNum = 0 }},
+			{"other-cname-type", func(c *apworld.Case) { c.CNameType, c.ACNameType = 10, 10 }},
+			{"reminted-identical", func(c *apworld.Case) {}},
+		} {
+			vclock.Virtual(apworld.T0)
+			service.VerifResetReplayCache()
+			s := service.NewSettings(kt, service.DecodePAC(false))
+			base := apworld.Base(et)
+			m1, err := w.Mint(base)
+			if err != nil {
+				engine.Fatal("mint: %v", err)
+			}
+			cs := base
+			v.mod(&cs)
+			m2, err := w.Mint(cs)
+			if err != nil {
+				engine.Fatal("mint: %v", err)
+			}
+			rec := map[string]interface{}{"etype": et, "second_ap_req": "same client, ctime+cusec and service; " + v.name}
+			ok1, e1 := present(m1.APReq, s)
+			n += 2
+			if !ok1 {
+				c.Violate("apreq", "valid-ap-req-rejected:"+v.name, map[string]interface{}{"err": e1}, rec)
+				continue
+			}
+			if ok2, _ := present(m2.APReq, s); ok2 {
+				c.Violate("apreq", "double-accept:same-client-time-and-service:"+v.name, nil, rec)
+				continue
+			}
+			c.Distinct(fmt.Sprintf("apreq/same-tuple/%d/%s", et, v.name))
+		}
+	}
 	// (b) one process, two service configurations with different clock skews, used alternately: what was accepted
 	// under one is still a replay when it comes back after the other was used
 	for _, et := range []int32{18, 23} {
